@@ -30,19 +30,24 @@ class UnlistedK(Unlisted, LookupError):
 UNLISTED = [UnlistedT, UnlistedV, UnlistedK, Unlisted]      # what a custom function might plausibly raise
 
 
-def build_checker(js, base, regs, salt=0):
-    """a real checker object as the model's configuration says; returns (checker or None, raised exception objects)"""
+def build_checker(js, base, regs, salt=0, before_regs=None):
+    """a real checker object as the model's configuration says; returns (checker or None, raised exception objects);
+    before_regs(checker) is called once the base checker exists and before any registration is made on it"""
     raised = {}
     if base == "none":
+        if before_regs:
+            before_regs(None)
         return None, raised
     if base == "default":
         fc = js.FormatChecker()
     elif base == "subset":
-        fc = js.FormatChecker(formats=["email"])
+        fc = js.FormatChecker(formats=["email", "ipv4", "date"])
     elif base == "empty":
         fc = js.FormatChecker(formats=())
     else:
         fc = getattr(js, base + "_format_checker")
+    if before_regs:
+        before_regs(fc)
     for n, reg in enumerate(regs):
         beh = reg["beh"]
         if beh == "truthy":
@@ -68,9 +73,9 @@ def main(args):
     cls = draft_classes()
     quick = args.tier == "quick"
     ck.rule = ("configurations = reachable states of spec/mc/MC_C12: base checker in {none, FormatChecker(), "
-               "FormatChecker(formats=['email']), FormatChecker(formats=()), draft3/draft4/draft7 checker objects} x <= %d "
+               "FormatChecker(formats=['email', 'ipv4', 'date']), FormatChecker(formats=()), draft3/draft4/draft7 checker objects} x <= %d "
                "registrations checker.checks(name, raises)(fn) with fn truthy / falsy / raising a listed / an unlisted exception, "
-               "on a new name, on the empty name, or overriding a built-in x probes (7 format names incl. unknown and empty x 12 "
+               "on a new name, on the empty name, or overriding a built-in, the validator constructed before or after them x probes (7 format names incl. unknown and empty x 12 "
                "instances of every JSON type incl. strings in and outside the built-in grammars); the expected outcome (pass / "
                "error without cause / error whose cause IS the raised exception / the exception escapes unchanged) is exported "
                "and replayed through validation in 4 drafts and through conforms(). Non-trivial: a checker is present and knows "
@@ -84,10 +89,12 @@ def main(args):
         inst = dec_str(x["s"]) if x["k"] == "str" else INST[x["k"]]
         want = ex["out"]
         ck.replayed += 1
-        ck.count((ex["base"], repr(ex["regs"]), ex["name"], repr(inst)), ex["base"] != "none" and want != "pass" or bool(ex["regs"]))
+        ck.count((ex["base"], ex["early"], repr(ex["regs"]), ex["name"], repr(inst)), ex["base"] != "none" and want != "pass" or bool(ex["regs"]))
         for d in DRAFTS:
-            fc, raised = build_checker(js, ex["base"], ex["regs"], salt=d + len(ck.distinct))
-            v = cls[d]({"format": ex["name"]}, format_checker=fc)
+            made = []
+            fc, raised = build_checker(js, ex["base"], ex["regs"], salt=d + len(ck.distinct),
+                                       before_regs=(lambda c: made.append(cls[d]({"format": ex["name"]}, format_checker=c))) if ex["early"] else None)
+            v = made[0] if ex["early"] else cls[d]({"format": ex["name"]}, format_checker=fc)
             got, detail = None, None
             try:
                 errs = list(v.iter_errors(inst))
@@ -108,7 +115,7 @@ def main(args):
             except Exception as e:  # noqa
                 got, detail = "raises:" + type(e).__name__, str(e)[:100]
             okay = (got == want) or (want == "error-builtin" and got in ("error", "error-builtin-cause")) or (want == "any" and got in ("pass", "error", "error-builtin-cause"))
-            case = {"draft": d, "base_checker": ex["base"], "registrations": ex["regs"], "format": ex["name"], "instance": inst,
+            case = {"draft": d, "base_checker": ex["base"], "validator_constructed_before_registrations": ex["early"], "registrations": ex["regs"], "format": ex["name"], "instance": inst,
                     "model_outcome": want, "observed": got, "detail": detail, "source": "MC_C12"}
             if not okay:
                 ck.violation("format_outcome", case)
